@@ -9,6 +9,7 @@ Record c14_step := mkStep {
   s_label   : label;
   s_res     : res;             (* observed error class *)
   s_tsoread : bool;            (* observed: GetTimestampOracle was called during the operation *)
+  s_got     : option bytes;    (* observed, Get only: the bytes the engine returned to this candidate's own Get *)
   s_stored  : option bytes;    (* observed: engine content of <prefix>/election right after the step *)
   s_desc    : bytes * N        (* observed: Describe() = "<holder>,<tso>" of the acting candidate *)
 }.
@@ -24,6 +25,7 @@ Fixpoint c14_run (s : sys) (xs : list c14_step) : bool :=
       let s' := step s (s_label x) in
       res_eqb (o_res o) (s_res x)
       && Bool.eqb (o_tsoread o) (s_tsoread x)
+      && opt_eqb beqb (match s_label x with LGet _ _ _ => o_observed o | _ => None end) (s_got x)
       && opt_eqb beqb (rec_bytes (store s')) (s_stored x)
       && desc_eqb (describe (cands s' (lab_cid (s_label x)))) (s_desc x)
       && c14_run s' tl
@@ -33,8 +35,9 @@ Definition c14_check (c : c14_case) : bool := c14_run (init (k_init c)) (k_steps
 
 (* ---- the property, on the implementation's trace alone ----
    The oracle tracks only what the trace shows: the stored bytes after each step and, per candidate,
-   the bytes it last obtained (a Get that reached the engine obtains what was stored at that
-   instant; a Create that committed obtains what it wrote). It never calls the model. *)
+   the bytes it last obtained from ITS OWN Get (the harness's record of what the engine returned to
+   that interface-level Get call — engine reads made inside any other operation do not count) or
+   wrote with its own committed Create. It never calls the model. *)
 Record ostate := mkO { o_st : option bytes; o_obs : cid -> option bytes }.
 
 Definition obeq := opt_eqb beqb.
@@ -56,11 +59,14 @@ Definition orc_step (o : ostate) (x : c14_step) : option ostate :=
   | LGet c e _ =>
       (* a read never changes the record *)
       if obeq after before
-      then Some (mkO after (match e, before with
-                            | GOk, Some b => upd (o_obs o) c (Some b)
-                            | _, _ => o_obs o
+      then Some (mkO after (match s_got x with
+                            | Some b => upd (o_obs o) c (Some b)
+                            | None => o_obs o
                             end))
       else None
+  | LInfo c =>
+      (* an information lookup neither writes the record nor changes what the candidate holds *)
+      if obeq after before then Some (mkO after (o_obs o)) else None
   | LCreate c _ b e t =>
       match s_res x with
       | ROk =>
